@@ -9,8 +9,8 @@ import z3
 from . import sorts as S
 from . import fuel as FUEL
 
-Z3_TIMEOUT_MS = int(os.environ.get('PYVC_Z3_TIMEOUT_MS', '10000'))
-CVC5_TIMEOUT_MS = int(os.environ.get('PYVC_CVC5_TIMEOUT_MS', '10000'))
+Z3_TIMEOUT_MS = int(os.environ.get('PYVC_Z3_TIMEOUT_MS', '8000'))
+CVC5_TIMEOUT_MS = int(os.environ.get('PYVC_CVC5_TIMEOUT_MS', '6000'))
 CVC5 = '/usr/bin/cvc5'
 
 
@@ -165,7 +165,7 @@ def discharge1(axioms, obl, seed=0, want_model=True, cross=False, quick_only=Fal
     if r == z3.sat:
         model = s.model()
     elif not uses_defs:
-        for n in (3, 5):
+        for n in (4,):
             sizes = {S.StrS: n + 1, S.ObjS: 2}
             s2 = mk_solver(list(axioms) + finite_closure(None, sizes), obl.pc, obl.goal, seed,
                            timeout=4000)
